@@ -115,7 +115,7 @@ def cmd_run(sid, checks=None, tier='quick'):
             keep = None
             if os.path.exists(evid):
                 keep = open(evid).read()
-            env = dict(os.environ, VERIF_REPO=tree)
+            env = dict(os.environ, VERIF_REPO=tree, VERIF_REPLAYS=os.path.join(tree, '.replays'))
             t0 = time.time()
             r = subprocess.run([os.path.join(VERIF, 'check'), c, '--tier', tier], cwd=VERIF, env=env,
                                capture_output=True, text=True, timeout=7200)
@@ -129,13 +129,6 @@ def cmd_run(sid, checks=None, tier='quick'):
         json.dump(meta, open(os.path.join(d, 'meta.json'), 'w'), indent=1)
     finally:
         shutil.rmtree(tree, True)
-        # replays written for a seeded run are not kept
-        for f in os.listdir(os.path.join(VERIF, 'replays')):
-            if f != '.keep':
-                try:
-                    os.remove(os.path.join(VERIF, 'replays', f))
-                except OSError:
-                    pass
 
 
 def main(argv):
